@@ -537,6 +537,42 @@ def load(file, *a, **k):
     raise TypeError('symx: np.load of %r is not modelled' % (file,))
 
 
+def reshape(a, *shape, order='C', **k):
+    from . import lv as _lv
+    if 'newshape' in k:
+        shape = (k.pop('newshape'),)
+    if 'shape' in k:
+        shape = (k.pop('shape'),)
+    if isinstance(a, _lv.LV):
+        return a.reshape(*shape, order=order)
+    return as_symnd(_np.reshape(a, *shape, order=order))
+
+
+def take(a, indices, axis=None, **k):
+    from . import lv as _lv
+    if isinstance(a, _lv.LV) and axis is not None:
+        ax = axis % a.ndim
+        idx = list(indices) if isinstance(indices, (list, tuple, _np.ndarray)) else indices
+        return a[(slice(None),) * ax + (idx,)]
+    return as_symnd(_np.take(a, indices, axis=axis, **k))
+
+
+def frombuffer(buf, dtype=float, count=-1, offset=0, **k):
+    from . import lv as _lv
+    if isinstance(buf, _lv.KBytes):
+        if str(_np.dtype(dtype)) != 'float64':
+            core.cur().flag('symx: frombuffer with dtype %s' % (dtype,))
+        return buf.as_view(count, offset)
+    if isinstance(buf, SymBytes):
+        if str(_np.dtype(dtype)) != 'float64' or offset % 8:
+            core.cur().flag('symx: frombuffer with dtype %s / offset %s' % (dtype, offset))
+        words = buf.words[offset // 8:]
+        if count is not None and count >= 0:
+            words = words[:count]
+        return objarr(words)
+    return _np.frombuffer(buf, dtype, count, offset, **k)
+
+
 def repeat(a, repeats, axis=None):
     from . import lv as _lv
     if isinstance(a, _lv.LV):
@@ -580,7 +616,7 @@ def hstack(seq, *a, **k):
 
 
 _OVERRIDES = {
-    'concatenate': concatenate, 'hstack': hstack, 'repeat': repeat,
+    'concatenate': concatenate, 'hstack': hstack, 'repeat': repeat, 'reshape': reshape, 'frombuffer': frombuffer, 'take': take,
     'fromfile': fromfile, 'save': save, 'savez': savez, 'savez_compressed': savez_compressed,
     'load': load, 'empty': empty, 'empty_like': empty_like, 'zeros': zeros, 'ones': ones,
     'zeros_like': zeros_like, 'ones_like': ones_like, 'min': nmin, 'max': nmax, 'amin': nmin,
